@@ -71,6 +71,7 @@ func (C03) Generate(r *core.RNG, tier string, idx uint64) interface{} {
 	if idx%25 == 0 {
 		p.Sweep = true
 		p.File.Recips = lib.GenRecips(r, 3, tier == "thorough" && r.Chance(1, 5), true)
+		lib.ClampGrease(p.File.Recips, 96)
 		return p
 	}
 	p.File.Recips = lib.GenRecips(r, 5, r.Chance(1, 5), true)
